@@ -196,7 +196,7 @@ PROPS = {
                 "failing conversion, division by zero); a process crash of the harness is a violation",
     },
     "C09": {
-        "module": "Arca.Props.C09", "theorems": ['Arca.Props.C09.raw_state_window_deploy_race', 'Arca.Props.C09.raw_state_window_enabling', 'Arca.Props.C09.raw_state_window_enabling_report_in_flight', 'Arca.Props.C09.raw_state_window_enabling_provided_while_parked', 'Arca.Props.C09.raw_state_window_starting', 'Arca.Props.C09.raw_state_window_starting_provided_while_parked', 'Arca.Props.C09.raw_state_window_completion_in_flight', 'Arca.Props.C09.raw_state_unsound', 'Arca.Props.C09.raw_state_windows_exhaustive', 'Arca.Props.C09.raw_deploy_wait_partial', 'Arca.Props.C09.deploy_wait_is_sound', 'Arca.Props.C09.detector_sound_waiting', 'Arca.Props.C09.settled_is_silent', 'Arca.Props.C09.detector_sound_counterexample_cancel_in_flight', 'Arca.Props.C09.closing_window_owes_completion', 'Arca.Props.C09.detector_sound_finished_partial', 'Arca.Props.C09.detector_sound_counterexample_failure_tail', 'Arca.Props.C09.detector_sound_partial', 'Arca.Props.C09.detector_sound_counterexample', 'Arca.Props.C09.refinement_owes_check', 'Arca.Props.C09.owed_check_is_delivered_or_kept', 'Arca.Props.C09.owed_check_runs', 'Arca.Props.C09.no_lost_check', 'Arca.Props.C09.detector_needs_quiescence_for_three_polls', 'Arca.Props.C09.one_active_poll_stops_detector', 'Arca.Props.C09.short_window_cannot_trigger'], "instrumented": True,
+        "module": "Arca.Props.C09", "theorems": ['Arca.Props.C09.raw_state_window_deploy_race', 'Arca.Props.C09.raw_state_window_enabling', 'Arca.Props.C09.raw_state_window_enabling_report_in_flight', 'Arca.Props.C09.raw_state_window_enabling_provided_while_parked', 'Arca.Props.C09.raw_state_window_starting', 'Arca.Props.C09.raw_state_window_starting_provided_while_parked', 'Arca.Props.C09.raw_state_window_completion_in_flight', 'Arca.Props.C09.raw_state_window_closing', 'Arca.Props.C09.raw_state_window_closing_owes_completion', 'Arca.Props.C09.raw_state_unsound', 'Arca.Props.C09.raw_state_windows_exhaustive', 'Arca.Props.C09.raw_deploy_wait_partial', 'Arca.Props.C09.counted_waiting_not_cancelled', 'Arca.Props.C09.deploy_wait_is_sound', 'Arca.Props.C09.detector_sound_waiting', 'Arca.Props.C09.settled_is_silent', 'Arca.Props.C09.detector_sound_finished_partial', 'Arca.Props.C09.harmless_is_inert', 'Arca.Props.C09.detector_sound_counterexample_failure_tail', 'Arca.Props.C09.detector_sound_counterexample_without_marking', 'Arca.Props.C09.refinement_owes_check', 'Arca.Props.C09.owed_check_is_delivered_or_kept', 'Arca.Props.C09.owed_check_runs', 'Arca.Props.C09.no_lost_check', 'Arca.Props.C09.detector_needs_quiescence_for_three_polls', 'Arca.Props.C09.one_active_poll_stops_detector', 'Arca.Props.C09.short_window_cannot_trigger'], "instrumented": True,
         "pins": ["workflow_workflow_loopState_checkForDeadlocks", "workflow_workflow_loopState_countStates",
                  "workflow_workflow_loopState_onStageComplete", "step_plugin_provider_runningStep_State",
                  "step_plugin_provider_runningStep_CurrentStage", "step_plugin_provider_runningStep_currentStageInputAvailable",
